@@ -9,6 +9,7 @@
            indices are non-negative (usize).  The out-of-range theorems need none of these and hold for
            EVERY index, including those whose byte offset index * N leaves usize (checked_mul). *)
 From EG Require Import Base.Prelude Model.Rawdata Proofs.Rawdata.
+From EG Require Model.Imageraw Proofs.Imagebridge.
 
 (* store then load returns the value; the buffer keeps its length and stays a byte buffer *)
 Theorem C11_load_store : forall t alt v buf i,
@@ -137,6 +138,12 @@ Proof. exact size_hint_exact. Qed.
 Theorem C11_any_mix_of_next_and_nth : forall t alt ops s l,
   it_ok s -> iter_list t alt s = Some l -> Forall op_ok ops -> iter_run t alt s ops = list_run l ops.
 Proof. exact iter_run_spec. Qed.
+
+(* bridge: the raw load of the ImageRaw model of property C09 (Model/Imageraw.v, indexed by the bit depth) is this
+   load, so the layout theorems above describe what ImageRaw::pixel and image drawing decode *)
+Theorem C11_raw_load_eq_load : forall t alt buf i,
+  bytes_ok buf -> len_ok buf -> 0 <= i -> Imageraw.raw_load (bits t) alt buf i = load t alt buf i.
+Proof. exact Imagebridge.raw_load_eq_load. Qed.
 
 (* non-vacuity: the hypotheses are satisfiable and the functions compute the documented values *)
 Example C11_witness :
